@@ -20,7 +20,8 @@ CONFIGS = {'blockmap': (['-t', 'ext2', '-b', '1024', '-N', '16'], 1024), 'extent
            'extent_csum': (['-t', 'ext4', '-O', '^has_journal,metadata_csum,64bit', '-b', '1024', '-N', '16'], 1024),
            'bigalloc': (['-t', 'ext4', '-O', '^has_journal,bigalloc', '-C', '4096', '-b', '1024', '-N', '16'], 1024),
            'inline': (['-t', 'ext4', '-O', '^has_journal,inline_data', '-b', '1024', '-N', '16', '-I', '256'], 1024),
-           'extent_4k': (['-t', 'ext4', '-O', '^has_journal', '-b', '4096', '-N', '16'], 4096)}
+           'extent_4k': (['-t', 'ext4', '-O', '^has_journal', '-b', '4096', '-N', '16'], 4096),
+           'extent_deep': (['-t', 'ext4', '-O', '^has_journal,metadata_csum', '-b', '1024', '-N', '16'], 1024)}
 
 def ops_for(bs, level):
     offs = [0, 1, bs - 1, bs, 12 * bs - 1, 12 * bs, (12 + bs // 4) * bs, 5 * bs + 7]
@@ -56,6 +57,17 @@ def mini_ops(bs):
     ops += ['p:A:%d:%d' % (b, b) for b in range(1, 5)] + ['p:A:1:4']
     ops += ['a:A:0:%d:1' % b for b in range(1, 5)] + ['a:A:0:0:6', 'a:A:0:2:2', 'a:A:8:1:3']
     ops += ['t:A:%d' % (3 * bs), 'r']
+    return ops
+
+DEEP_PREFIX = 'g:A:380:2'
+def deep_ops(bs):
+    """on a file of 380 single-block extents (extent tree of depth 2 at 1 KiB blocks): at EVERY extent position one operation that removes the extent, removes
+    it together with its successor, fills the hole behind it (merging three extents), writes into the hole, preallocates the hole, or truncates there"""
+    ops = []
+    for k in range(380):
+        b = 2 * k
+        ops += ['p:A:%d:%d' % (b, b), 'p:A:%d:%d' % (b, b + 2), 'w:A:%d:%d' % ((b + 1) * bs, bs), 'w:A:%d:9' % ((b + 1) * bs + 5), 'a:A:0:%d:1' % (b + 1)]
+        if k % 4 == 0: ops.append('t:A:%d' % (b * bs + 1))
     return ops
 
 import re
@@ -133,13 +145,14 @@ def main(tier, only=None):
     quick = tier == 'quick'
     ck.set_deadline(420 if quick else 3000)
     sc = scratch(); BASES = {}
-    cfgs = only or (['blockmap', 'extent', 'bigalloc', 'inline'] if quick else list(CONFIGS))
+    cfgs = only or (['blockmap', 'extent', 'bigalloc', 'inline', 'extent_deep'] if quick else list(CONFIGS))
     for c in list(cfgs):
-        for full in ((False,) if quick and c != 'extent' else (False, True)):
+        for full in ((False,) if (quick and c != 'extent') or c == 'extent_deep' else (False, True)):
             name = c + ('_full' if full else '')
             p = os.path.join(sc, name + '.img')
             size = 400 if not full else 60
             if CONFIGS[c][1] == 4096: size *= 4
+            if c == 'extent_deep': size = 3000
             rc, out = run([tool('mke2fs'), '-q', '-F', '-U', '6b33f586-a183-4383-921d-30ab132db9b9'] + CONFIGS[c][0] + [p, '%dk' % size], timeout=60)
             if rc: log('C09: cannot build base %s: %s' % (name, out[-200:])); continue
             os.truncate(p, size * 1024)     # mke2fs leaves a sparse tail unwritten; e2fsck would report a device smaller than the filesystem
@@ -151,6 +164,26 @@ def main(tier, only=None):
         # every configuration gets an equal share of the remaining time
         ck.deadline = min(t_end, time.time() + max(20.0, (t_end - time.time()) / max(1, nleft))); nleft -= 1
         bs = CONFIGS[name.replace('_full', '')][1]
+        if name == 'extent_deep':
+            # one operation at every extent position of a file whose extent tree has depth 2 (the prefix builds it through the same library calls)
+            hists = [DEEP_PREFIX] + [DEEP_PREFIX + ' ' + o for o in deep_ops(bs)]
+            if not quick: hists += [DEEP_PREFIX + ' ' + o + ' ' + o2 for o in deep_ops(bs)[::7] for o2 in deep_ops(bs)[3::11]]
+            chunks = [hists[i:i + 40] for i in range(0, len(hists), 40)]
+            res = pmap(run_batch, [(name, c) for c in chunks], chunksize=1)
+            seen = {}; trans = 0
+            for batch in res:
+                for r in batch:
+                    trans += 1
+                    if r['bad']:
+                        ck.violation('%s :: %s' % (name, r['h']), {'config': name, 'history': r['h'], 'what': r['bad'], 'errors_returned': r['errs'], 'root_cause_class': None}); continue
+                    seen.setdefault(r['hash'], r['h'])
+            st = sorted(seen.values())
+            if quick: st = st[::2]
+            for cfg, h, msg, cls in pmap(check_state, [(name, h) for h in st], chunksize=8):
+                if msg: ck.violation('%s :: %s :: consistency' % (name, h), {'config': name, 'history': h, 'what': msg, 'root_cause_class': cls})
+            per[name] = {'states': len(seen), 'transitions': trans, 'depth_completed': 1 if quick else 2, 'states_checked_by_e2fsck_and_xck': len(st), 'prefix': DEEP_PREFIX}
+            total_tr += trans; total_states += len(seen)
+            continue
         depth = 3 if (not quick or name in ('extent', 'blockmap', 'bigalloc')) else 2
         seen = {}; level = ['']
         trans = 0; dmax = 0
@@ -220,7 +253,7 @@ def main(tier, only=None):
         total_tr += trans; total_states += len(seen); maxdepth = max(maxdepth, dmax)
     ck.add(evaluations=total_tr, distinct_nontrivial=total_states, states=total_states, transitions=total_tr, traces_validated_against_impl=total_tr,
            rule='BFS over histories of file operations on two files (pwrite at offsets around block / indirect-level / cluster boundaries with 5 lengths, two writes + read through one handle, set_size, punch over block ranges crossing 12 and the '
-                'first indirect boundary, fallocate with each flag, fs close+reopen; and on extent-mapped configurations a second, deeper search (4-5 levels) over a focused alphabet of 22 operations on the first six blocks: small in-block writes, single-block/range punch and preallocation, truncate, reopen) on block-mapped, extent, extent+csum, bigalloc, inline_data and 4k filesystems (empty and nearly full); states de-duplicated on the final image hash; '
+                'first indirect boundary, fallocate with each flag, fs close+reopen; on a file of 380 single-block extents (extent tree of depth 2) one punch / range punch / hole fill / partial write / preallocation / truncate at EVERY extent position; and on extent-mapped configurations a second, deeper search (4-5 levels) over a focused alphabet of 22 operations on the first six blocks: small in-block writes, single-block/range punch and preallocation, truncate, reopen) on block-mapped, extent, extent+csum, bigalloc, inline_data and 4k filesystems (empty and nearly full); states de-duplicated on the final image hash; '
                 'oracle after every operation: both files read back through fresh handles (chunk 4096 and 1000) equal the byte-array model (last write wins, holes and punched ranges are zero, exact size); every distinct final image: e2fsck -fn = 0 and independent checker clean',
            samples=['extent :: w:A:1023:1025 p:A:0:1', 'blockmap :: w:A:12288:3072 p:A:11:13 w:B:0:1'])
     ck.cov['configs'] = per
@@ -235,6 +268,7 @@ def replay(path):
     c = d['config']; base = c.replace('_full', '')
     p = os.path.join(scratch(), c + '.img')
     size = (400 if not c.endswith('_full') else 60) * (4 if CONFIGS[base][1] == 4096 else 1)
+    if c == 'extent_deep': size = 3000
     run([tool('mke2fs'), '-q', '-F', '-U', '6b33f586-a183-4383-921d-30ab132db9b9'] + CONFIGS[base][0] + [p, '%dk' % size])
     os.truncate(p, size * 1024)
     run([tool('debugfs'), '-w', '-R', 'write /dev/null A', p]); run([tool('debugfs'), '-w', '-R', 'write /dev/null B', p])
